@@ -115,12 +115,57 @@ func propsOfPackage(module, rel string) []string {
 	return nil
 }
 
+// anchorFiles: the files each property names as its anchors (properties.jsonl, anchors.files).
+var anchorFiles = map[string][]string{
+	"C01": {"internal/upload/reports.go", "internal/config/config.go", "internal/upload/upload.go", "internal/upload/findwork.go", "internal/telemetry/types.go"},
+	"C02": {"internal/telemetry/dir.go", "mode.go", "internal/upload/findwork.go", "internal/upload/reports.go", "internal/upload/date.go", "internal/upload/run.go", "internal/counter/file.go"},
+	"C03": {"internal/counter/counter.go", "internal/counter/file.go"},
+	"C04": {"internal/counter/file.go", "internal/mmap/mmap_unix.go", "internal/counter/parse.go"},
+	"C05": {"internal/counter/file.go", "internal/counter/counter.go", "internal/mmap/mmap_unix.go", "internal/telemetry/dir.go", "internal/upload/run.go", "internal/upload/date.go", "counter/counter.go"},
+	"C06": {"internal/counter/parse.go", "internal/counter/file.go", "internal/counter/stackcounter.go", "internal/upload/date.go", "cmd/gotelemetry/main.go", "cmd/gotelemetry/internal/view/view.go"},
+	"C07": {"internal/upload/reports.go", "internal/upload/findwork.go", "internal/upload/date.go", "internal/upload/Doc.txt"},
+	"C08": {"internal/upload/upload.go", "internal/upload/reports.go", "internal/upload/findwork.go", "internal/upload/Doc.txt", "start.go"},
+	"C09": {"internal/counter/file.go", "internal/upload/findwork.go", "internal/upload/reports.go", "internal/upload/date.go"},
+	"C10": {"internal/counter/file.go", "internal/counter/parse.go"},
+	"C11": {"internal/upload/reports.go", "godev/cmd/telemetrygodev/main.go", "cmd/gotelemetry/internal/view/view.go", "internal/config/config.go"},
+	"C12": {"godev/cmd/telemetrygodev/main.go", "godev/internal/middleware/middleware.go", "godev/internal/storage/storage.go", "godev/internal/content/content.go"},
+	"C13": {"godev/cmd/worker/main.go", "godev/internal/storage/storage.go"},
+	"C14": {"internal/crashmonitor/monitor.go", "internal/counter/stackcounter.go", "start.go"},
+	"C15": {"internal/counter/stackcounter.go", "internal/counter/parse.go"},
+	"C16": {"start.go", "start_posix.go", "internal/telemetry/dir.go"},
+	"C17": {"internal/chartconfig/load.go", "internal/chartconfig/chartconfig.go", "internal/configgen/main.go", "internal/configgen/validate.go", "config/config.json"},
+	"C18": {"godev/internal/storage/storage.go", "godev/internal/storage/api.go"},
+	"C19": {"cmd/gotelemetry/main.go", "internal/telemetry/dir.go"},
+}
+
+// propsOfSite: the properties a new inventory entry found in file (relative to the repository) is
+// reported under: those anchored in that file; for a file no property is anchored in, those of
+// the package.
+func propsOfSite(module, rel, file string) []string {
+	var out []string
+	for p, fs := range anchorFiles {
+		for _, f := range fs {
+			if f == file {
+				out = append(out, p)
+			}
+		}
+	}
+	if len(out) == 0 {
+		return propsOfPackage(module, rel)
+	}
+	sort.Strings(out)
+	return out
+}
+
 type invEntry struct {
-	line string
-	pos  token.Pos
-	rel  string // package, relative
-	what string
-	tops map[string]bool // the top-level functions the entry was found in
+	line   string
+	pos    token.Pos
+	rel    string // package, relative
+	what   string
+	tops   map[string]bool // the top-level functions the entry was found in
+	g      *ssa.Global     // state entries: the variable
+	fa     *ssa.FieldAddr  // field entries: one address of the field
+	callee *ssa.Function   // xcall entries
 }
 
 // Entries that a rule of the property decides on its own (so that they need not be in the
@@ -134,12 +179,15 @@ func inventoryOf(m *Module) []invEntry {
 	var out []invEntry
 	seen := map[string]int{}
 	curTop := ""
+	var curG *ssa.Global
+	var curFA *ssa.FieldAddr
+	var curCallee *ssa.Function
 	add := func(line string, pos token.Pos, rel, what string) {
 		i, ok := seen[line]
 		if !ok {
 			i = len(out)
 			seen[line] = i
-			out = append(out, invEntry{line, pos, rel, what, map[string]bool{}})
+			out = append(out, invEntry{line, pos, rel, what, map[string]bool{}, curG, curFA, curCallee})
 		}
 		out[i].tops[curTop] = true
 	}
@@ -179,7 +227,9 @@ func inventoryOf(m *Module) []invEntry {
 			for ctop.Parent() != nil {
 				ctop = ctop.Parent()
 			}
+			curCallee = ctop
 			add("xcall\t"+tname+"\t"+fname(ctop), cs.Pos(), rel, "calls "+fname(ctop)+" of another package")
+			curCallee = nil
 		}
 		// writes to package-level variables after initialisation
 		if top.Name() == "init" && top.Parent() == nil {
@@ -230,15 +280,22 @@ func inventoryOf(m *Module) []invEntry {
 				if nt.Obj().Pkg() == nil || m.byPath[nt.Obj().Pkg().Path()] == nil {
 					continue
 				}
+				if !baselineFuncs["type:"+nt.Obj().Pkg().Path()+"."+refTypeNameOf(nt)] {
+					continue // a type the reference tree does not have: its objects are reachable only through new fields or variables, which are entries themselves
+				}
 				frel := strings.TrimPrefix(strings.TrimPrefix(nt.Obj().Pkg().Path(), m.modulePath()), "/")
 				fld := refTypeNameOf(nt) + "." + refFieldName(fw.fa.X.Type(), fw.fa.Field)
+				curFA = fw.fa
 				add("field\t"+tname+"\t"+short(nt.Obj().Pkg().Path())+"."+fld+"\t"+fw.kind, in.Pos(), frel,
 					"changes field "+fld+" of an existing object ("+fw.kind+")")
+				curFA = nil
 			}
 			if g == nil || g.Pkg == nil || m.byPath[g.Pkg.Pkg.Path()] != g.Pkg {
 				continue
 			}
+			curG = g
 			add("state\t"+m.Name+":"+relOf(g.Pkg)+"\t"+refGlobalName(g), in.Pos(), relOf(g.Pkg), "package-level variable "+refGlobalName(g)+" is written after initialisation (in "+fname(top)+")")
+			curG = nil
 		}
 	}
 	sort.Slice(out, func(i, j int) bool { return out[i].line < out[j].line })
@@ -287,7 +344,8 @@ func checkInventory(c *Ctx, prop string) {
 	for _, m := range []*Module{c.Root(), c.Godev()} {
 		for _, e := range inventoryOf(m) {
 			mine := false
-			for _, p := range propsOfPackage(m.Name, e.rel) {
+			file, _, _ := strings.Cut(m.Pos(e.pos), ":")
+			for _, p := range propsOfSite(m.Name, e.rel, file) {
 				if p == prop {
 					mine = true
 				}
@@ -300,6 +358,25 @@ func checkInventory(c *Ctx, prop string) {
 				continue
 			}
 			kind, rest, _ := strings.Cut(e.line, "\t")
+			// book-keeping state (tally.go): only ever updated, read by nothing that is reachable
+			if kind == "state" && e.g != nil {
+				if ok, _ := tallyOnlyGlobal(m.Prog, e.g); ok {
+					r.Check(prop+".inventory", "new "+kind+": "+strings.ReplaceAll(rest, "\t", " → ")+" (book-keeping only)", m.Pos(e.pos), true, "only updated; never read by reachable code")
+					continue
+				}
+			}
+			if kind == "field" && e.fa != nil && isNewField(e.fa) {
+				if ok, _ := tallyOnlyField(m.Prog, e.fa); ok {
+					r.Check(prop+".inventory", "new "+kind+": "+strings.ReplaceAll(rest, "\t", " → ")+" (book-keeping only)", m.Pos(e.pos), true, "only updated; never read by reachable code")
+					continue
+				}
+			}
+			// a reference function of another package that neither performs an effect nor changes any
+			// state (transitively) adds nothing to the surface
+			if kind == "xcall" && e.callee != nil && e.callee.Pkg != nil && baselineFuncs[funcKeyOfSSA(e.callee)] && !changesAnything(m, e.callee) {
+				r.Check(prop+".inventory", "new "+kind+": "+strings.ReplaceAll(rest, "\t", " → ")+" (no effect, no state)", m.Pos(e.pos), true, "a reference function that performs no effect and changes no state")
+				continue
+			}
 			if why := coveredEntry(kind, rest, e); why != "" {
 				r.Check(prop+".inventory", "new "+kind+": "+strings.ReplaceAll(rest, "\t", " → ")+" (decided by a rule)", m.Pos(e.pos), true, why)
 				continue
@@ -431,6 +508,92 @@ func coveredEntry(kind, rest string, e invEntry) string {
 		if all {
 			return cv.why
 		}
+	}
+	return ""
+}
+
+// isNewField: the field addressed by fa is not a field of the reference tree's struct type.
+func isNewField(fa *ssa.FieldAddr) bool {
+	pt, ok := fa.X.Type().Underlying().(*types.Pointer)
+	if !ok {
+		return false
+	}
+	nt, ok := pt.Elem().(*types.Named)
+	if !ok || nt.Obj().Pkg() == nil {
+		return false
+	}
+	payload, ok := baselineDecl["fields:"+nt.Obj().Pkg().Path()+"."+refTypeNameOf(nt)]
+	if !ok {
+		return false
+	}
+	name := refFieldName(fa.X.Type(), fa.Field)
+	for _, alt := range strings.Split(payload, "\x00") {
+		for _, f := range strings.Split(alt, "|") {
+			if n, _, _ := strings.Cut(f, " "); n == name {
+				return false
+			}
+		}
+	}
+	return true
+}
+
+// changesAnything: some function reachable from f performs a primitive effect, writes a
+// package-level variable, a field of an object it did not build, a channel, or starts a goroutine.
+func changesAnything(m *Module, f *ssa.Function) bool {
+	// static calls and closures only: what a dynamically dispatched call does depends on the
+	// values the caller hands in, and those are the caller's own entries
+	seen := map[*ssa.Function]bool{f: true}
+	work := []*ssa.Function{f}
+	for len(work) > 0 {
+		g := work[0]
+		work = work[1:]
+		if g.Blocks == nil || g.Pkg == nil && g.Parent() == nil || !strings.HasPrefix(pkgPathOfFn(g), modPath) {
+			continue
+		}
+		if len(directEffects(g)) > 0 {
+			return true
+		}
+		for _, in := range instrsOf(g) {
+			switch x := in.(type) {
+			case *ssa.Go, *ssa.Send:
+				return true
+			case *ssa.Store:
+				if gg, _ := rootGlobal(x.Addr); gg != nil {
+					return true
+				}
+			case *ssa.MapUpdate:
+				if gg, _ := rootGlobal(x.Map); gg != nil {
+					return true
+				}
+			case *ssa.MakeClosure:
+				if fn, ok := x.Fn.(*ssa.Function); ok && !seen[fn] {
+					seen[fn] = true
+					work = append(work, fn)
+				}
+			}
+			if len(fieldWritesOf(in)) > 0 {
+				return true
+			}
+			if ci, ok := in.(ssa.CallInstruction); ok {
+				if cal := ci.Common().StaticCallee(); cal != nil && !seen[cal] {
+					seen[cal] = true
+					work = append(work, cal)
+				}
+			}
+		}
+	}
+	return false
+}
+
+func pkgPathOfFn(f *ssa.Function) string {
+	for f.Parent() != nil {
+		f = f.Parent()
+	}
+	if f.Pkg != nil {
+		return f.Pkg.Pkg.Path()
+	}
+	if f.Origin() != nil && f.Origin().Pkg != nil {
+		return f.Origin().Pkg.Pkg.Path()
 	}
 	return ""
 }
